@@ -98,7 +98,6 @@ def run_c27(v):
     rnd = _run_trace(v, binary, "random", ["--scenarios", 400 if quick else 6000])
     model = rnd["model"]          # which protocol model the code follows step by step
     by_combo = {}
-    scn_info = {}
     for e in lib.read_ndjson(rnd["trace"]):
         if e["ev"] == "reset":
             cur = (e["task_order"], e["idb_order"])
@@ -117,16 +116,22 @@ def run_c27(v):
         "bug_manifest_before_segments": dict(task="fifo", idb="creation", bug="manifest_before_segments"),
         "bug_coalesce_drops_newest": dict(task="fifo", idb="creation", bug="coalesce_drops_newest"),
         "fix_any_any": dict(task="any", idb="any", fix="manifest_barrier", nseg=1 if quick else 2),
+        # the whole as-built any/any state space (TLC stops at the first counterexample otherwise):
+        # the invariants that do not depend on the manifest/segment order must hold everywhere
+        "any_any_full_space": dict(task="any", idb="any",
+                                   invs=["TypeOK", "NoStuck", "EventuallyAllPresent", "ReloadIsSomeCommit"]),
     }
     if not quick:
         jobs["fix_any_any_3seg"] = dict(task="any", idb="any", fix="manifest_barrier", nseg=3, commits=1)
         jobs["fifo_creation_5seg"] = dict(task="fifo", idb="creation", nseg=5)
     with cf.ThreadPoolExecutor(max_workers=5 if quick else 4) as ex:
-        futs = {n: ex.submit(_mc, n, 3 if quick else 4, **kw) for n, kw in jobs.items()}
+        big = ("any_any_full_space", "fix_any_any", "fix_any_any_3seg")
+        futs = {n: ex.submit(_mc, n, (8 if n in big else 2) if quick else (8 if n in big else 4), **kw)
+                for n, kw in sorted(jobs.items(), key=lambda x: x[0] not in big)}
         res = {n: f.result() for n, f in futs.items()}
     lib.require_mc_ok(res["fifo_creation"], "MC_Browser microtask order + creation-order IndexedDB")
     for n in res:
-        if n.startswith("fix_") or n.startswith("fifo_creation_"):
+        if n.startswith("fix_") or n.startswith("fifo_creation_") or n == "any_any_full_space":
             lib.require_mc_ok(res[n], f"MC_Browser {n}")
     lib.expect_mc_violation(res["bug_flush_first_only"], "flush awaits only the first receiver", {"ResolvedCommitPresent"})
     lib.expect_mc_violation(res["bug_resolve_before_put"], "waiters resolved before the put completes", {"ResolvedCommitPresent"})
